@@ -48,7 +48,13 @@ fn pool(n: usize) -> Vec<Point> {
 
 impl World {
   fn new(tags: &[u8], npool: usize) -> Option<World> {
-    let s = Server::new(tags.to_vec()).ok()?;
+    Self::new_with_list(tags, tags, npool)
+  }
+
+  /// `list` is what is handed to Server::new (may repeat tags, in any order);
+  /// `tags` is the set it denotes
+  fn new_with_list(tags: &[u8], list: &[u8], npool: usize) -> Option<World> {
+    let s = Server::new(list.to_vec()).ok()?;
     let pk0 = s.get_public_key().serialize_to_bincode().ok()?;
     Some(World {
       insts: vec![(
@@ -243,7 +249,13 @@ impl World {
 fn exhaustive(rec: &mut Rec, depth: usize, a: u8, b: u8, u: u8, extra_registered: &[u8], first: usize) {
   let mut tags = vec![a, b];
   tags.extend_from_slice(extra_registered);
-  let w0 = match World::new(&tags, 2) {
+  // some configurations list a tag twice / out of order
+  let mut list = tags.clone();
+  if first % 2 == 1 {
+    list.push(a);
+    list.insert(0, b);
+  }
+  let w0 = match World::new_with_list(&tags, &list, 2) {
     Some(w) => w,
     None => return,
   };
@@ -318,7 +330,16 @@ fn random_history(rec: &mut Rec, ctx: &Ctx, idx: u64, rng: &mut ChaCha20Rng) {
     }
   }
   tags.sort();
-  let mut w = match World::new(&tags, 3) {
+  let mut list = tags.clone();
+  if idx % 3 == 1 {
+    // repeated and shuffled entries in the list handed to Server::new
+    for _ in 0..rng.gen_range(1..6) {
+      let d = *pick(rng, &tags);
+      list.insert(rng.gen_range(0..=list.len()), d);
+    }
+    list.shuffle(rng);
+  }
+  let mut w = match World::new_with_list(&tags, &list, 3) {
     Some(w) => w,
     None => return,
   };
